@@ -1,6 +1,6 @@
 (* non-vacuity: concrete, non-trivial values meeting the hypotheses of each
    theorem of Properties.v (all by vm_compute) *)
-From V Require Import Common.Base C17.WriteSM C17.Spec C17.Proofs C17.CompileProofs C17.DiskProofs C17.SpecProofs C17.IOFail.
+From V Require Import Common.Base C17.WriteSM C17.Spec C17.Proofs C17.CompileProofs C17.DiskProofs C17.SpecProofs C17.IOFail C17.PathModel C17.PathProofs C17.LinkProofs C17.Modes.
 From Coq Require Import String.
 
 Definition ex_opts := mkOpts true false false.
@@ -123,3 +123,57 @@ Example ex_io_skipped_path_not_attempted :
   let st1 := fst (step phys_id ex_opts (init ex_d0) ex_oc1) in
   r_errors (snd (step_io phys_id true ex_opts st1 ex_oc2 [P "/out/a.js"])) = false.
 Proof. vm_compute. reflexivity. Qed.
+
+(* ---- the path layer ---- *)
+(* output_inside_outdir: a rendered relative path as the linker produces it *)
+Example ex_join_inside :
+  is_rooted (P "/w/out") = true /\ no_dotdot_seg (P ".//sub/./a.js") = true /\
+  fs_join (P "/w/out") (P ".//sub/./a.js") = P "/w/out/sub/a.js" /\
+  fs_join (P "/w/out") (P "./../a.js") = P "/w/a.js".
+Proof. vm_compute. repeat split; reflexivity. Qed.
+
+(* neutralise_no_dotdot_partial: two leading parent-directory segments; the hypothesis holds *)
+Example ex_neutralise :
+  neutralise (P "../../x/") = P "/_.._/_.._/x" /\
+  has_dd (skipn (count_dotdot 9 (P "../../x/") * 3) (P "../../x/")) = false /\
+  path_relative_to_outbase (P "/w/src") (P "/w/other/b.js") false [] = (P "/_.._/other", P "b") /\
+  path_relative_to_outbase (P "/w/src") (P "/w/src/lib/index.js") true [] = (P "/", P "lib").
+Proof. vm_compute. repeat split; reflexivity. Qed.
+
+(* templates: parsing (with its quirk), rendering, the entry point's output path *)
+Example ex_template :
+  parse_template (P "[dir]/[name]-[hash]") = [(P "./", Some PDir); (P "/", Some PName); (P "-", Some PHash)] /\
+  parse_template (P "[name]-x[") = [(P "./", Some PName)] /\
+  entry_out_path (P "/w/out") (entry_template (P "a\\[name]")) (P "/w/src") (P "/w/src/sub/b.ts") [] [] (P ".js") = P "/w/out/a/b.js" /\
+  entry_out_path (P "/w/out") (entry_template []) (P "/w/src") (P "/w/src/sub/b.ts") [] [] (P ".js") = P "/w/out/sub/b.js".
+Proof. vm_compute. repeat split; reflexivity. Qed.
+
+(* no_input_overwritten_concrete: outdir = outbase = the source directory, the
+   default template, ".js": the output path of the entry is the entry itself *)
+Definition ex_entry := mkEntry (P "/w/src/a.js") [] [] (P ".js") [10] 110.
+Example ex_concrete_overwrite :
+  entry_out_path (P "/w/src") default_entry_template (P "/w/src") (P "/w/src/a.js") [] [] (P ".js") = P "/w/src/a.js" /\
+  snd (compile ex_opts (mkOutcome false [P "/w/src/a.js"] false
+        (linked_of_entries (P "/w/src") default_entry_template (P "/w/src") [ex_entry]) false false false)) = true /\
+  snd (compile ex_opts (mkOutcome false [P "/w/src/a.js"] false
+        (linked_of_entries (P "/w/out") default_entry_template (P "/w/src") [ex_entry]) false false false)) = false.
+Proof. vm_compute. repeat split; reflexivity. Qed.
+
+(* link_free_step_is_plain_step: out -> src is a link; outputs below /dist are link-free, below /out they are not *)
+Example ex_link_free :
+  link_free (phys_links [(P "/out", P "/src")]) [P "/dist/a.js"; P "/src/a.js"] = true /\
+  link_free (phys_links [(P "/out", P "/src")]) [P "/out/a.js"] = false.
+Proof. vm_compute. split; reflexivity. Qed.
+
+(* two_outputs_one_path_reported: two different mergeable files on one key with equal contents pass *)
+Example ex_two_on_one :
+  let o1 := mkOut (P "/out/d.txt") [5] 105 true in
+  let o2 := mkOut (P "/OUT/d.txt") [5] 105 true in
+  o1 <> o2 /\ ckey o1 = ckey o2 /\ snd (compile ex_opts (mkOutcome false [] false [o1; o2] false false false)) = false.
+Proof. vm_compute. repeat split; try reflexivity. discriminate. Qed.
+
+(* modes *)
+Example ex_modes :
+  mode_write CliServe true = false /\ mode_write CliBuild false = true /\ mode_write ApiServe true = true /\
+  effective_allow (mode_opts CliServe true false false) = true.
+Proof. vm_compute. repeat split; reflexivity. Qed.
